@@ -39,7 +39,7 @@ func genDataflow(r *rand.Rand, id string) string {
 		"tout json '%s' -> prepend zz -> append yy -> foreach v { out $v } -> regexp s/z/Z/",
 		"x = %s; out $x -> format yaml; $x -> [[/1]]; switch { case { $x.0 == \"" + items[0] + "\" } then { out sw1 }; default { out sw2 } }",
 		"function c03f_" + id + " { <stdin> -> msort -> foreach v { out \"f:$v\" } }; tout json '%s' -> c03f_" + id + " -> mtac",
-		"tout json '%s' -> foreach v { out $v } -> foreach w { out \"[$w]\" } -> foreach u { out \"($u)\" }",
+		"tout json '%s' -> foreach v { out $v } -> cast str -> foreach w { out \"[$w]\" } -> cast str -> foreach u { out \"($u)\" }",
 	}
 	t := templates[r.Intn(len(templates))]
 	doc := string(j)
@@ -49,11 +49,90 @@ func genDataflow(r *rand.Rand, id string) string {
 	return fmt.Sprintf(t, doc)
 }
 
+// loop-logic family: a loop stage whose body contains commands skipped by && / ||
+// (directly, or through a function it calls) and whose output is read concurrently
+// by the following stages; returns the program and the model's stdout
+func genLoopLogic(r *rand.Rand, id string) (string, string) {
+	n := 3 + r.Intn(6)
+	items := make([]string, n)
+	for i := range items {
+		items[i] = fmt.Sprintf("%c%d", 'a'+rune(r.Intn(26)), r.Intn(50))
+	}
+	j, _ := json.Marshal(items)
+	type stmt struct {
+		src string
+		fmt string // "" = writes nothing
+	}
+	pool := []stmt{
+		{"false && out skipA", ""},
+		{"true || out skipB", ""},
+		{"false && out skipC || out skipC2", ""}, // once a command of a chain is skipped the rest of the chain is too
+		{"true && out \"t$V\"", "t%s"},
+		{"false || out \"f$V\"", "f%s"},
+		{"out \"v$V\"", "v%s"},
+	}
+	var body []stmt
+	for k := 1 + r.Intn(5); k > 0; k-- {
+		body = append(body, pool[r.Intn(len(pool))])
+	}
+	body = append(body, pool[3+r.Intn(3)])
+	var parts []string
+	for _, st := range body {
+		parts = append(parts, st.src)
+	}
+	sep := []string{"; ", "\n"}[r.Intn(2)]
+	bodySrc := strings.Join(parts, sep)
+	var src strings.Builder
+	if r.Intn(3) == 0 {
+		fn := "c03g_" + id
+		src.WriteString("function " + fn + " {\n" + strings.ReplaceAll(bodySrc, "$V", "$1") + "\n}\n")
+		bodySrc = fn + " $x"
+	} else {
+		bodySrc = strings.ReplaceAll(bodySrc, "$V", "$x")
+	}
+	fmt.Fprintf(&src, "tout json '%s' -> foreach x {\n%s\n}", j, bodySrc)
+	var lines []string
+	for _, it := range items {
+		for _, st := range body {
+			if st.fmt != "" {
+				lines = append(lines, fmt.Sprintf(st.fmt, it))
+			}
+		}
+	}
+	// every stage has its own loop variable: concurrent stages of one pipeline share the
+	// function's variable scope, so a shared name would be a race of the program's own making
+	for k := 1 + r.Intn(3); k > 0; k-- {
+		switch r.Intn(4) {
+		case 0:
+			fmt.Fprintf(&src, " -> cast str -> foreach y%d { out \"<$y%d>\" }", k, k)
+			for i := range lines {
+				lines[i] = "<" + lines[i] + ">"
+			}
+		case 1:
+			fmt.Fprintf(&src, " -> cast str -> foreach w%d { true || out skipD; out \"[$w%d]\" }", k, k)
+			for i := range lines {
+				lines[i] = "[" + lines[i] + "]"
+			}
+		case 2:
+			src.WriteString(" -> cast str -> mtac")
+			for a, b := 0, len(lines)-1; a < b; a, b = a+1, b-1 {
+				lines[a], lines[b] = lines[b], lines[a]
+			}
+		default:
+			fmt.Fprintf(&src, " | cast str | foreach u%d { false && out skipE; out \"($u%d)\" }", k, k)
+			for i := range lines {
+				lines[i] = "(" + lines[i] + ")"
+			}
+		}
+	}
+	return src.String(), strings.Join(lines, "\n") + "\n"
+}
+
 func init() {
 	register(&Property{
 		ID:    "C03",
 		Level: "exploration",
-		Rule: "PRNG programs from five families — command chains in normal / try / trypipe mode, statements whose first pipeline stage writes stderr while the later stages never read their stdin (so only the interpreter orders the stderr lines of consecutive statements), nested foreach/while/if/function control flow, variable-scoping programs, and data-flow pipelines over the deterministic builtins (tout, format, cast, foreach, if, switch, msort, mtac, regexp, count, prepend/append, index, functions reading <stdin>) — each executed once without and R times with hook-driven schedule perturbation (random yields / microsecond sleeps at the check-then-act windows of the streams and of process start / termination / deregistration), every run in a fresh fork; " +
+		Rule: "PRNG programs from six families — loop stages whose body contains commands skipped by && / || (directly or through a function) read concurrently by following foreach / cast / mtac stages, command chains in normal / try / trypipe mode, statements whose first pipeline stage writes stderr while the later stages never read their stdin (so only the interpreter orders the stderr lines of consecutive statements), nested foreach/while/if/function control flow, variable-scoping programs, and data-flow pipelines over the deterministic builtins (tout, format, cast, foreach, if, switch, msort, mtac, regexp, count, prepend/append, index, functions reading <stdin>) — each executed once without and R times with hook-driven schedule perturbation (random yields / microsecond sleeps at the check-then-act windows of the streams and of process start / termination / deregistration), every run in a fresh fork; " +
 			"oracle: all runs finish and give byte-identical stdout, stderr and exit number (and equal the reference model where the family has one); non-trivial = the program has a pipeline of >= 2 stages or a function call and its runs showed >= 2 distinct interleaving signatures; distinct by program text",
 		Assumptions: []string{"programs obey the stream discipline (at most one stderr writer per pipeline, only the last stage writes the block's stdout)", "failing commands are generated only as non-piped leaves or first stages (a failing list builtin may ForceClose its stdin, which legitimately races with the upstream writer)", "Go goroutines are preemptible everywhere, so every injected delay is a legal schedule"},
 		Technique:   "runtime monitoring: metamorphic same-program-many-schedules comparison with hook-injected yields",
@@ -67,7 +146,11 @@ func init() {
 				id := fmt.Sprintf("%d_%d", x.Seed, i)
 				var e c03Expect
 				var block string
-				switch i % 5 {
+				switch i % 6 {
+				case 5:
+					var want string
+					block, want = genLoopLogic(r, id)
+					e = c03Expect{Family: "loop-logic", Src: block, Piped: true, HasModel: true, Stdout: want}
 				case 4:
 					// pipelines whose first stage writes stderr and whose later stages never read
 					// their stdin, followed by more stderr writers: the order of the stderr lines
